@@ -101,3 +101,52 @@ func (g *Guards) Facts(b *ssa.BasicBlock) map[EdgeFact]bool { return g.In[b] }
 
 // Reachable reports whether b is reachable with no-return pruning.
 func (g *Guards) Reachable(b *ssa.BasicBlock) bool { _, ok := g.In[b]; return ok }
+
+// Separates reports whether every path from the entry of fn to block target
+// crosses at least one branch edge accepted by accept (the edge leaving an If
+// with the given outcome). Paths through blocks that end in a no-return call
+// do not count.
+func Separates(fn *ssa.Function, target *ssa.BasicBlock, noReturn func(*ssa.Function) bool, accept func(ifi *ssa.If, branch bool) bool) bool {
+	if len(fn.Blocks) == 0 {
+		return false
+	}
+	dead := func(b *ssa.BasicBlock) bool {
+		for _, in := range b.Instrs {
+			switch x := in.(type) {
+			case *ssa.Panic:
+				return true
+			case *ssa.Call:
+				if noReturn != nil {
+					if callee := x.Call.StaticCallee(); callee != nil && noReturn(callee) {
+						return true
+					}
+				}
+			}
+		}
+		return false
+	}
+	seen := map[*ssa.BasicBlock]bool{}
+	stack := []*ssa.BasicBlock{fn.Blocks[0]}
+	for len(stack) > 0 {
+		b := stack[len(stack)-1]
+		stack = stack[:len(stack)-1]
+		if seen[b] {
+			continue
+		}
+		seen[b] = true
+		if b == target {
+			return false
+		}
+		if dead(b) {
+			continue
+		}
+		ifi, isIf := b.Instrs[len(b.Instrs)-1].(*ssa.If)
+		for i, s := range b.Succs {
+			if isIf && b.Succs[0] != b.Succs[1] && accept(ifi, i == 0) {
+				continue
+			}
+			stack = append(stack, s)
+		}
+	}
+	return true
+}
